@@ -215,6 +215,30 @@ def check(case, ctx):
     else:
         ctx.skip("retained spectrum not separated (gap rule)")
 
+    # (b') precomputed kernel with center=True: the estimator centres the raw kernels itself; repeated calls on the
+    # same caller arrays (transform then predict, score twice) must keep giving the same answers
+    if center and case["reg"] in ("none", "krr", "pre", "preW"):
+        regC = "precomputed" if case["reg"] in ("pre", "preW") else KernelRidge(alpha=reg_alpha, kernel="precomputed")
+        Cc = build(dict(kernel="precomputed"), regC, True)
+        Kraw, Kvraw = K.copy(), Kv.copy()
+        with ctx.lib("fit-precomputed-centered"):
+            Cc.fit(Kraw, fit_Y, **fit_kw)
+            TC = Cc.transform(Kvraw)
+            PC = Cc.predict(Kvraw)
+            TC2 = Cc.transform(Kvraw)
+            sC1 = Cc.score(Kraw, Y[:, 0] if case.get("y1d") else Y)
+            sC2 = Cc.score(Kraw, Y[:, 0] if case.get("y1d") else Y)
+            sA = A.score(X, Y[:, 0] if case.get("y1d") else Y)
+        ctx.close("precomputed+center:repeatable-transform", TC2, TC, 1e-12 * max(1.0, np.abs(TC).max()), "transform called twice on the same kernel")
+        ctx.close("precomputed+center:repeatable-score", sC2, sC1, 1e-10 * max(1.0, abs(sC1)), "score called twice on the training kernel")
+        if determined:
+            sign_compare(ctx, "named==precomputed+center:transform", TA, TC, w, k, sc, "named kernel vs precomputed kernel with center=True")
+            ctx.close("named==precomputed+center:predict", np.asarray(PA).reshape(len(Xv), -1), np.asarray(PC).reshape(len(Xv), -1),
+                      (1e-6 / gap) * max(1.0, np.abs(Y).max(), np.abs(Kvc).max()), "predictions, named vs precomputed with center=True")
+            ctx.close("named==precomputed+center:train-score", sC1, sA, 1e-6 * max(1.0, abs(sA)) / min(1.0, gap * 1e3 + 1e-300) if gap < 1e-3 else 1e-6 * max(1.0, abs(sA)),
+                      "score on the training set, named vs precomputed kernel")
+        ctx.count("precomputed_centered_checked")
+
     # (a) linear kernel == sample-space PCovR with the equivalent ridge ---------------------------------------
     if kern == "linear" and not center and case["reg"] in ("krr", "none") and determined:
         pcv = PCovR(mixing=mix, n_components=min(k, min(n, m)), space="sample",
